@@ -1005,6 +1005,21 @@ func (e *Env) call(x *ECall) *SV {
 		return e.boolSV("(> " + arg(0).S + " " + e.old.alloc + ")")
 	case "allocated":
 		return e.boolSV("(and (> " + arg(0).S + " 0) (<= " + arg(0).S + " " + e.st.alloc + "))")
+	case "preserved":
+		// preserved(<heap designator>): every object that existed on entry has the same contents in that heap
+		if e.old == nil {
+			specFail("preserved() needs an entry state")
+		}
+		des := x.Args[0].String()
+		con := &Contract{Modifies: []string{des}}
+		var parts []string
+		for _, k := range sortedKeys(c.modifiesKeys(con, e.pkg)) {
+			cur := c.heapGet(e.st, k, c.heapSortsM[k])
+			old := c.heapGet(e.old, k, c.heapSortsM[k])
+			c.uses["quant"] = true
+			parts = append(parts, fmt.Sprintf("(forall ((r! Int)) (! (=> (<= r! %s) (= (select %s r!) (select %s r!))) :pattern ((select %s r!))))", e.old.alloc, cur, old, cur))
+		}
+		return e.boolSV(and(parts...))
 	case "sref":
 		return e.intSV("(s-ref " + arg(0).S + ")")
 	case "soff":
